@@ -530,6 +530,10 @@ class FGen:
         if k == 'num':
             ct = self.G.cty(ty)
             iv = int(v)
+            bits = rt.bits if isinstance(rt, IntTy) else 64
+            if bits > 64:
+                iv &= (1 << 128) - 1
+                return '((((unsigned __int128)%dULL) << 64) | (unsigned __int128)%dULL)' % (iv >> 64, iv & ((1 << 64) - 1))
             if iv < 0:
                 return '((%s)%dLL)' % (ct, iv)
             return '((%s)%dULL)' % (ct, iv)
